@@ -1,0 +1,51 @@
+//go:build verif
+// +build verif
+
+// Package verifhook provides schedule and observation points used only by the
+// external verification harness (build tag "verif").
+package verifhook
+
+import "sync/atomic"
+
+// Hooks are the callbacks installed by the harness.
+type Hooks struct {
+	Yield    func(label string)
+	YieldInt func(label string, v int64)
+	YieldStr func(label string, s string)
+}
+
+var hooks atomic.Value // *Hooks
+
+// Set installs (or, with nil, removes) the callbacks.
+func Set(h *Hooks) {
+	if h == nil {
+		h = &Hooks{}
+	}
+	hooks.Store(h)
+}
+
+func get() *Hooks {
+	h, _ := hooks.Load().(*Hooks)
+	return h
+}
+
+// Yield marks a schedule point.
+func Yield(label string) {
+	if h := get(); h != nil && h.Yield != nil {
+		h.Yield(label)
+	}
+}
+
+// YieldInt marks an observation point carrying an integer.
+func YieldInt(label string, v int64) {
+	if h := get(); h != nil && h.YieldInt != nil {
+		h.YieldInt(label, v)
+	}
+}
+
+// YieldStr marks an observation point carrying a string.
+func YieldStr(label string, s string) {
+	if h := get(); h != nil && h.YieldStr != nil {
+		h.YieldStr(label, s)
+	}
+}
